@@ -281,6 +281,24 @@ def run(cx, rep):
             order = [a_var, b_, c_, d_, e_var, f_, g_, h_]
             okff = len(state_fields) == 8 and all(set(ff.get(sf, [])) == {"this." + sf, order[i]} for i, sf in enumerate(state_fields))
             rep.ob("C13.1", "feed-forward", okff, "each state word must be increased by its working variable in order a..h (found %s)" % ff, mod.loc(pc))
+    # every call of the compression function is handed exactly one 64-byte block
+    pc_name = [mn for mn, m in w.methods.items() if m["function"] is pc][0]
+    buf64 = {fn for fn, node in w.fields.items() if node.get("value") is not None and s(node["value"]) == "new Uint8Array(64)"}
+    n_pc = 0
+    for mname, m in w.methods.items():
+        for n in walk(m["function"]):
+            if n["type"] == "CallExpression" and s(n["callee"]) == "this." + pc_name:
+                n_pc += 1
+                a = unparen(n["arguments"][0]["expression"])
+                ok = s(a).startswith("this.") and s(a)[5:] in buf64
+                mc = method_call(a)
+                if mc and mc[1] == "subarray" and len(mc[2]) == 2:
+                    lo, hi = s(mc[2][0]), s(mc[2][1])
+                    ok = hi in ("(%s+64)" % lo, "(64+%s)" % lo) or (lo == "0" and hi == "64")
+                rep.ob("C13.1", "chunk-is-64-bytes/%s" % mname, ok,
+                       "%s hands `%s` to the compression function: it must be the 64-byte block buffer or `x.subarray(p, p + 64)`; a shorter view is read past its end and the missing bytes are hashed as zeros" % (mname, s(a)),
+                       mod.loc(n), sample={"caller": mname, "argument": s(a)})
+    rep.floor("C13.1", "calls of the compression function", n_pc, 3)
     # word load big-endian
     be = False
     for n in walk(pc):
